@@ -210,9 +210,12 @@ def check_elements(ctx):
   ctx.floor("DSP-elements", "TTML content element classes", len(subs), 13)
   fx = ix.func(f"{EL}:ContentElement.from_xml")
   lst = None
-  for st in own_nodes(fx.node):
-    if isinstance(st, ast.Assign) and isinstance(st.value, ast.List) and unparse(st.targets[0]) == "content_classes":
-      lst = [unparse(e) for e in st.value.elts]
+  # the dispatch table: a list / tuple (written in from_xml or a constant it names) whose members are content element classes
+  cands = [n for n in own_nodes(fx.node) if isinstance(n, (ast.List, ast.Tuple, ast.Set))]
+  cands += [ix.deref(m, n, cls=base, func=fx) for n in own_nodes(fx.node) if isinstance(n, (ast.Name, ast.Attribute)) and isinstance(n.ctx, ast.Load)]
+  for t in cands:
+    if isinstance(t, (ast.List, ast.Tuple, ast.Set)) and len(t.elts) >= 5 and all(unparse(e).split(".")[-1] in subs for e in t.elts):
+      lst = [unparse(e).split(".")[-1] for e in t.elts]
   if lst is None:
     raise AnalysisError("ContentElement.from_xml: content_classes list not found")
   for name, c in sorted(subs.items()):
@@ -335,9 +338,11 @@ def check_timing_arithmetic(ctx):
   f = ix.func(f"{EL}:ContentElement.ParsingContext.process")
   ctx.unit(f.module)
   fe = FuncEval(ix)
-  chains = [st for st in f.node.body if _assigns_in_every_branch(st, "self.desired_end")]
-  if len(chains) != 1:
-    raise AnalysisError(f"{f.qualname}: expected one if-chain assigning self.desired_end in every branch, found {len(chains)}")
+  # the statements of process() that write self.desired_end (an if-chain, or one assignment of a conditional expression), evaluated in order
+  chains = [st for st in f.node.body if isinstance(st, (ast.If, ast.Assign)) and
+            any(isinstance(t, ast.Attribute) and isinstance(t.ctx, ast.Store) and unparse(t) == "self.desired_end" for t in ast.walk(st))]
+  if not chains:
+    raise AnalysisError(f"{f.qualname}: no statement assigns self.desired_end")
   begins = [st for st in f.node.body if isinstance(st, ast.Assign) and unparse(st.targets[0]) == "self.desired_begin"]
   if len(begins) != 1:
     raise AnalysisError(f"{f.qualname}: expected one assignment of self.desired_begin, found {len(begins)}")
